@@ -42,7 +42,7 @@ from maus.models.edifact_components import DataElementFreeText, Segment, Segment
 
 from bounded import sched
 from bounded.common import F, U, make_cer, set_cer
-from bounded.sched import echo_message, echo_verdict, pmap
+from bounded.sched import echo_verdict, pmap
 
 MAX_VIOLATIONS = 5
 RC_TABLE = {"1": F, "2": F, "3": U, "4": U, "5": F}
@@ -62,7 +62,9 @@ TEMPLATES: List[Tuple[str, Optional[List[str]], Any]] = [
     ("X", [], lambda t: True),
     ("Muss [2][950] U [501]", ["950"], lambda t: echo_verdict("950", t)),
     ("Kann [5][952] X [3][951]", None, None),
+    ("X [1P][950]", ["950"], lambda t: echo_verdict("950", t)),  # package resolver gate between task start and set()
 ]
+PACKAGES = {"1P": "[2] U [5]"}
 _ECHO = re.compile(r"rejects <(.*?)>")
 
 
@@ -108,7 +110,7 @@ def _canon(validation_result: Any) -> dict:
 
 
 def _whole_coro(scenario: dict):
-    cer = make_cer(rc=RC_TABLE, hints={"501": "Hinweis 501"})
+    cer = make_cer(rc=RC_TABLE, hints={"501": "Hinweis 501"}, packages=PACKAGES)
 
     async def run():
         set_cer(cer)
@@ -123,7 +125,7 @@ def _whole_coro(scenario: dict):
 
 
 def _alone_coro(scenario: dict, discriminator: str, segment_requirement: str):
-    cer = make_cer(rc=RC_TABLE, hints={"501": "Hinweis 501"})
+    cer = make_cer(rc=RC_TABLE, hints={"501": "Hinweis 501"}, packages=PACKAGES)
     _, index = build(scenario)
     template, text, _ = index[discriminator]
 
@@ -206,7 +208,9 @@ def scenarios(tier: str, rng: random.Random) -> List[dict]:
         {"shape": "deep", "segment_expression": "Muss [4]", "elements": [(1, "B-no"), (0, "A-okall"), (1, "C-ok950"),
                                                                          (3, "E-ok952-ok950")], "soll": True},
     ]
-    n_random = 42 if tier == "thorough" else 10
+    fixed.append({"shape": "segment", "segment_expression": "Muss [1]",
+                  "elements": [(11, "A-okall"), (11, "B-no"), (1, "C-ok950")], "soll": True})
+    n_random = 41 if tier == "thorough" else 9
     for n in range(n_random):
         count = rng.choice([2, 3, 4, 4])
         shape = "deep" if n % 3 == 2 else "segment"
